@@ -57,10 +57,30 @@ inline void run_tasks(const Case &c, F fn)
 }
 
 // RAII marker: the calling task is inside an API operation.
+// While it lives the task executes code of the repository, so call-boundary preemption
+// (vsim_core.cc) is on; harness bookkeeping belongs outside, harness callbacks invoked from
+// inside the operation declare themselves with HarnessCode.
 struct InOp
 {
-  InOp() { vsim::in_operation(true); }
-  ~InOp() { vsim::in_operation(false); }
+  InOp()
+  {
+    vsim::in_operation(true);
+    vsim::call_points_add(+1);
+  }
+  ~InOp()
+  {
+    vsim::call_points_add(-1);
+    vsim::in_operation(false);
+  }
+};
+// RAII marker at the top of every harness callback the SDK calls (stub exporters, recordables,
+// samplers, id generators, observable callbacks, log handler, queue element hooks): harness
+// state is only consistent between schedule points, so no call-boundary preemption in here.
+struct HarnessCode
+{
+  int old;
+  HarnessCode() : old(vsim::call_points_set(-1000000)) {}
+  ~HarnessCode() { vsim::call_points_set(old); }
 };
 
 }  // namespace hz
